@@ -550,7 +550,7 @@ def check_relations(ctx, case):
         k1 = float(R.rates(r, case['fluence'], case['Cd_ratio'], case['fast_ratio'])[2])
         lo = v1[i0] * math.exp(-k1 * (t2 - t1))
         ctx.evaluated(what='exposure-bound')
-        if not v3[i0] >= lo * (1 - 1e-9):
+        if lo > 1e-290 and not v3[i0] >= lo * (1 - 1e-9):   # below that the bound itself underflows (absolute floor)
             ctx.violation('%s: activity after %r h is %r, below the activity after %r h (%r) reduced by target '
                           'depletion (%r)' % (r.label(), t2, v3[i0], t1, v1[i0], lo),
                           kind='exposure-bound', evals=evals())
